@@ -398,4 +398,9 @@ def main(tier):
                  r'^(isal_deflate_body|isal_deflate_finish|isal_deflate_icf_body_hash_hist|isal_deflate_icf_finish_hash_hist)_0\d$',
                  icf=dict(level_buf=c19.field_offsets('struct isal_zstream', ['level_buf'])['level_buf'],
                           **c19.field_offsets('struct level_buf', ['icf_buf_next', 'icf_buf_avail_out'], headers=('igzip_level_buf_structs.h',))))
+    Kst, _dr = mirror.c_values('default', ['igzip_lib.h'], [('ZSTATE_BODY', 'ZSTATE_BODY')], 'c10_zstate')
+    asmlin.check_state_siblings(rep, 'DEFLATE', mod, {'isal_deflate_body_base': r'^isal_deflate_body_0\d$', 'isal_deflate_finish_base': r'^isal_deflate_finish_0\d$',
+                                                       'isal_deflate_icf_body_hash_hist_base': r'^isal_deflate_icf_body_hash_hist_0\d$', 'isal_deflate_icf_finish_hash_hist_base': r'^isal_deflate_icf_finish_hash_hist_0\d$'},
+                                c19.field_offsets('struct isal_zstream', ['internal_state.state'])['internal_state.state'],
+                                {'isal_deflate_body_base': {Kst['ZSTATE_BODY']}, 'isal_deflate_icf_body_hash_hist_base': {Kst['ZSTATE_BODY']}}, 8)
     return rep.finish()
